@@ -33,9 +33,17 @@ inline int valid_secs(MC& mc, int i)
     return c;
 }
 
-inline void arbitrary_state(MC& mc, bool charge_order)
+//! any track order policy (none, init_charge, every reindex_* policy)
+inline TrackOrder any_order()
 {
-    mc.params.init.track_order = charge_order ? TrackOrder::init_charge : TrackOrder::none;
+    unsigned o = verif_nondet_u32("track_order");
+    verif_assume(o < static_cast<unsigned>(TrackOrder::size_));
+    return static_cast<TrackOrder>(o);
+}
+
+inline void arbitrary_state(MC& mc, TrackOrder order)
+{
+    mc.params.init.track_order = order;
     for (int i = 0; i < N; ++i)
     {
         mc.symbolic_slot(i);
@@ -56,8 +64,9 @@ inline void arbitrary_state(MC& mc, bool charge_order)
 VERIF_OBLIGATION(obl_c02_locate)
 {
     MC mc;
-    bool charge = verif_nondet_bool("init_charge");
-    arbitrary_state(mc, charge);
+    TrackOrder order = any_order();
+    bool charge = order == TrackOrder::init_charge;
+    arbitrary_state(mc, order);
     LocateAliveExecutor locate{verif::params_ptr(mc), verif::state_ptr(mc)};
     for (int i = 0; i < N; ++i)
         locate(ThreadId(i));
@@ -157,7 +166,7 @@ inline size_type arbitrary_queue(MC& mc)
 VERIF_OBLIGATION(obl_c02_process)
 {
     MC mc;
-    arbitrary_state(mc, false);
+    arbitrary_state(mc, TrackOrder::none);
     size_type ninit0 = arbitrary_queue(mc);
     Pre pre;
     snapshot(mc, pre);
@@ -264,7 +273,9 @@ VERIF_OBLIGATION(obl_c02_process)
 VERIF_OBLIGATION(obl_c02_process_slot)
 {
     MC mc;
-    arbitrary_state(mc, false);
+    TrackOrder order = any_order();
+    bool charge = order == TrackOrder::init_charge;
+    arbitrary_state(mc, order);
     size_type ninit0 = arbitrary_queue(mc);
     constexpr int tid = 0;
     Pre pre;
@@ -284,7 +295,9 @@ VERIF_OBLIGATION(obl_c02_process_slot)
     bool inactive = pre.status[tid] == TrackStatus::inactive;
     bool alive = pre.status[tid] == TrackStatus::alive;
     int nvalid = inactive ? 0 : valid_secs(mc, tid);
-    bool reuse = !alive && nvalid > 0;
+    // same rule as LocateAliveExecutor (checked in C02.1): the first secondary of a dying parent is born in place for every
+    // track order except init_charge
+    bool reuse = !alive && nvalid > 0 && !charge;
     int need = nvalid - (reuse ? 1 : 0);
     // counters as produced by the scan: total, this slot's exclusive prefix, total initializers (already += total)
     size_type total = verif_nondet_u32("num_secondaries");
@@ -309,7 +322,7 @@ VERIF_OBLIGATION(obl_c02_process_slot)
             continue;
         Secondary const& s = pre.sec[tid][k];
         TrackId got;
-        if (!alive && !used_slot)
+        if (reuse && !used_slot)
         {
             used_slot = true;
             verif_assert(mc.s_status[tid] == TrackStatus::initializing && mc.s_steps[tid] == 0, "in-place secondary: slot re-initialised");
@@ -326,7 +339,7 @@ VERIF_OBLIGATION(obl_c02_process_slot)
             verif_assert(ti.geo.pos[0] == pre.pos[tid][0] && ti.geo.pos[1] == pre.pos[tid][1] && ti.geo.pos[2] == pre.pos[tid][2], "initializer position = parent position");
             verif_assert(ti.geo.dir[0] == s.direction[0] && ti.geo.dir[1] == s.direction[1] && ti.geo.dir[2] == s.direction[2], "initializer direction = secondary direction");
             int off = (int)total - (int)prefix - j;
-            if (off <= N)
+            if (off <= N && (!charge || alive))
                 verif_assert(mc.i_parents[N - off] == TrackSlotId(tid), "parents[] entry for InitTracks");
             got = ti.sim.track_id;
             ++j;
@@ -358,7 +371,7 @@ VERIF_OBLIGATION(obl_c02_process_slot)
 VERIF_OBLIGATION(obl_c02_init_thread)
 {
     MC mc;
-    arbitrary_state(mc, false);
+    arbitrary_state(mc, TrackOrder::none);
     size_type ninit = arbitrary_queue(mc);
     Pre pre;
     snapshot(mc, pre);
